@@ -38,10 +38,15 @@ def gen_cases(tier, seed):
         hist.append([str(rng.choice(ALPHA, p=[0.15, 0.15, 0.35, 0.2, 0.15])) for _ in range(n)])
     cases = []
     per = 130
+    # how the layer is held and how a checkpoint reaches it: on its own or as a child of a container (then saved / loaded
+    # through the parent), and with the mode of the receiving instance set after or BEFORE the load
+    variants = [("flat", "load_then_mode"), ("flat", "mode_then_load"), ("nested", "load_then_mode"), ("nested", "mode_then_load")]
     for layer in ("actnorm2d", "actnorm4d", "batchnorm"):
-        for i in range(0, len(hist), per):
-            cases.append({"layer": layer, "histories": hist[i:i + per], "seed": env.subseed(seed, "c14", layer, i),
-                          "world": "f64", "cost": 1})
+        for vi, (hold, order) in enumerate(variants):
+            hs = hist if vi == 0 else [h for h in hist if "saveload" in h or hold == "nested"]
+            for i in range(0, len(hs), per):
+                cases.append({"layer": layer, "histories": hs[i:i + per], "seed": env.subseed(seed, "c14", layer, i, vi),
+                              "hold": hold, "order": order, "world": "f64", "cost": 1})
     return cases
 
 
@@ -176,6 +181,8 @@ def run_case(case):
         g = torch.Generator().manual_seed(seed)
         F = 1 + seed % 3
         real = new_real(layer, F, seed)
+        nested = case.get("hold") == "nested"
+        top = _hold(real, nested)
         if layer == "batchnorm":
             ref = RefBatchNorm(F, real.eps, real.momentum, real.unconstrained_weight.detach(), real.bias.detach())
         else:
@@ -184,27 +191,34 @@ def run_case(case):
         for si, op in enumerate(hist):
             abstract = "%s|%s|init%d|tf%d|%s" % (layer, "T" if ref.training else "E", int(getattr(ref, "initialized", ntrain > 0)),
                                                  min(ntrain, 3), "R" if reloaded else "-")
-            ctxd = dict(layer=layer, history=hist[:si + 1], step=si, op=op, state=abstract)
+            ctxd = dict(layer=layer, history=hist[:si + 1], step=si, op=op, state=abstract, hold=case.get("hold", "flat"),
+                        order=case.get("order", "load_then_mode"))
             try:
                 if op == "train":
-                    real.train()
+                    top.train()
                     ref.training = True
                 elif op == "eval":
-                    real.eval()
+                    top.eval()
                     ref.training = False
                 elif op == "saveload":
                     buf = io.BytesIO()
-                    torch.save(real.state_dict(), buf)
+                    torch.save(top.state_dict(), buf)
                     buf.seek(0)
                     fresh = new_real(layer, F, seed + 1000 + si, cfg_seed=seed)
-                    fresh.load_state_dict(torch.load(buf))
-                    fresh.train(real.training)
-                    real = fresh
+                    ftop = _hold(fresh, nested)
+                    if case.get("order") == "mode_then_load":
+                        ftop.train(top.training)
+                        ftop.load_state_dict(torch.load(buf))
+                    else:
+                        ftop.load_state_dict(torch.load(buf))
+                        ftop.train(top.training)
+                    real, top = fresh, ftop
                     reloaded = True
+                    r.count("reloads_%s_%s" % (case.get("hold", "flat"), case.get("order", "load_then_mode")))
                 elif op == "forward":
                     x = batch(layer, F, g)
                     with torch.no_grad():
-                        y, lad = real(x)
+                        y, lad = top(x)
                     rs = {k: v.detach().clone() for k, v in real.state_dict().items()}
                     ry, rl, info = ref.forward(x, rs)
                     if ref.training:
@@ -226,7 +240,7 @@ def run_case(case):
                         r.viol("forward_mismatch", "%s forward differs from the documented life-cycle" % layer.rstrip("24d"),
                                out_err=_err(y, ry), lad_err=_err(lad, rl), **ctxd)
                         break
-                    r.cell(abstract, op)
+                    r.cell(abstract, op, case.get("hold", "flat"), case.get("order", "-") if reloaded else "-")
                 elif op == "inverse":
                     x = batch(layer, F, g)
                     rx, rl, info = ref.inverse(x)
@@ -234,7 +248,7 @@ def run_case(case):
                     r.count("steps_compared")
                     try:
                         with torch.no_grad():
-                            y, lad = real.inverse(x)
+                            y, lad = top.inverse(x)
                         raised = None
                     except InverseNotAvailable:
                         raised = "InverseNotAvailable"
@@ -276,6 +290,14 @@ def run_case(case):
                 break
     r.sample({"layer": layer, "history": case["histories"][min(7, len(case["histories"]) - 1)]})
     return r.done()
+
+
+def _hold(layer_obj, nested):
+    """the layer itself, or a container whose only child it is (mode switches, calls and checkpoints then go through the parent)"""
+    if not nested:
+        return layer_obj
+    from nflows import transforms as T
+    return T.CompositeTransform([layer_obj])
 
 
 def _err(a, b):
